@@ -8,6 +8,39 @@ PROP = "C17"
 EDGE = (1, 28, 29, 57, 58, 99)
 
 
+def spellings(k):
+    """doubles that denote k/100: the quotient, the decimal literal, and the results of ordinary arithmetic that lands within a few units
+    in the last place of it (1 - (100-k)/100, k*0.01, k/10/10) plus the two neighbouring doubles; the nearest whole percentage of each is k"""
+    import math
+    x = k / 100
+    out = [x, float("0.%02d" % k), 1 - (100 - k) / 100, k * 0.01, k / 10 / 10, math.nextafter(x, 0.0), math.nextafter(x, 1.0)]
+    seen, res = set(), []
+    for v in out:
+        if v not in seen and abs(v * 100 - k) < 1e-9:
+            seen.add(v)
+            res.append(v)
+    return res
+
+
+def run_spelling(sc, k, value, pos):
+    """main() with one probability given as the double `value` (a spelling of k/100); the name must show k at that position"""
+    sc.clear()
+    kw = dict(seed=0, width=1, length=1, rb=0.1, lb=0.1, tb=0.1, lt=0.3, max_reward=6, force_down=False)
+    key = ("rb", "lb", "tb", "lt")[pos]
+    kw[key] = value
+    e = gen.run_main(**kw)
+    files = sc.files()
+    if e is not None or len(files) != 1:
+        return ("C17/spelling-refused", repr(e), None, "main() with %s=%r: outcome %r, files %r" % (key, value, e, files))
+    m = gen.NAME_RE.match(files[0])
+    want = [10, 10, 10, 30]
+    want[pos] = k
+    if not m or [int(x) for x in m.groups()[4:8]] != want:
+        return ("C17/name-misstates-parameters", files[0], None,
+                "probability %s = %r (that is %d/100 up to the last bits of the double) produced %r, expected the whole percentages %r" % (key, value, k, files[0], want))
+    return None
+
+
 def expect_name(seed, w, l, r, rb, lb, tb, lt, fd):
     return "robot_%d_w%d_l%d_r%d_rb%d_lb%d_tb%d_lt%d%s.py" % (seed, w, l, r, rb, lb, tb, lt, "_force_down" if fd else "")
 
@@ -65,6 +98,17 @@ def work(shard):
     out = {"runs": 0, "violations": [], "n_violations": 0, "names": {}, "samples": []}
     if kind == "pairs":
         return work_pairs(items)
+    if kind == "spellings":
+        with gen.Scratch() as sc:
+            for k, value, pos in items:
+                f = run_spelling(sc, k, value, pos)
+                out["runs"] += 1
+                if f:
+                    out["n_violations"] += 1
+                    if len([c for c in out["violations"] if c["klass"] == f[0]]) < 2:
+                        out["violations"].append({"kind": "params", "klass": f[0], "input": {"entry": "spelling", "params": [k, value, pos]}, "config": {},
+                                                  "observed": f[1], "expected": f[2], "explanation": f[3]})
+        return out
     prev = None
     last_fd = None
     with gen.Scratch() as sc:
@@ -87,7 +131,7 @@ def work(shard):
     return out
 
 
-RULE = ("prob_to_str(k/100) for k = 1..99 (value computed as k/100 and parsed from the text '0.kk'); roberta_generator.main() in a scratch directory for "
+RULE = ("prob_to_str for k = 1..99 on every double that denotes k/100 (the quotient, the text '0.kk', 1-(100-k)/100, k*0.01, k/10/10 and the two neighbouring doubles), the arithmetic spellings also through main() in each probability position; roberta_generator.main() in a scratch directory for "
         "every k in each of the four probability positions, all 99^2 (robot, light) pairs, and the full product {1,28,29,57,58,99}^4 x seed {0,7} x "
         "sizes {1x1,2x3} x max reward {1,6} x force-down; the manual entry point for every k in each of its three positions and a product; every ordered pair of 5 parameter sets called in one process; the "
         "created path must parse back to exactly the parameters and the map parameters -> name must be injective (dictionary over all runs); "
@@ -129,7 +173,7 @@ def run(ctx):
     # direct function leg
     direct = []
     for k in range(1, 100):
-        for val in (k / 100, float("0.%02d" % k)):
+        for val in spellings(k):
             try:
                 s = G.prob_to_str(val)
             except Exception as e:                           # noqa: BLE001
@@ -183,6 +227,10 @@ def run(ctx):
             shards.append(("manual", manual[i::ctx.jobs]))
     pairs = [(a, b) for a in PAIR_SETS for b in PAIR_SETS]
     shards.append(("pairs", pairs))
+    spell = [(k, v, pos) for k in range(1, 100) for v in spellings(k)[2:] for pos in ((k % 4,) if not ctx.thorough else range(4))]
+    for i in range(ctx.jobs):
+        if spell[i::ctx.jobs]:
+            shards.append(("spellings", spell[i::ctx.jobs]))
     tot = {"runs": 0, "violations": list(direct), "n_violations": len(direct), "names": {}, "samples": []}
     import multiprocessing as mp
     res = par.run_shards(work_nomerge, shards, ctx.jobs)
@@ -204,10 +252,10 @@ def run(ctx):
                                           "input": {"entry": name.split(":")[0], "params": list(distinct[0]), "other": list(distinct[1])}, "config": {},
                                           "observed": name, "expected": "distinct names",
                                           "explanation": "parameter sets %r and %r share the file %s" % (distinct[0], distinct[1], name)})
-    if tot["runs"] != len(cli) + len(manual) + 3 * len(pairs) and not res.get("skipped_shards") and not tot["violations"]:
-        raise par.HarnessError("C17: %d runs executed, %d planned" % (tot["runs"], len(cli) + len(manual) + 3 * len(pairs)))
+    if tot["runs"] != len(cli) + len(manual) + 3 * len(pairs) + len(spell) and not res.get("skipped_shards") and not tot["violations"]:
+        raise par.HarnessError("C17: %d runs executed, %d planned" % (tot["runs"], len(cli) + len(manual) + 3 * len(pairs) + len(spell)))
     cov = {"states": tot["runs"] + 198, "transitions": tot["runs"] + 198, "traces_validated_against_impl": tot["runs"] + 198,
-           "evaluations": tot["runs"] + 198, "distinct_nontrivial": tot["runs"], "cli_runs": len(cli), "manual_runs": len(manual), "ordered_call_pairs_in_one_process": len(pairs),
+           "evaluations": tot["runs"] + 198, "distinct_nontrivial": tot["runs"], "cli_runs": len(cli), "manual_runs": len(manual), "ordered_call_pairs_in_one_process": len(pairs), "runs_with_other_doubles_denoting_k_over_100": len(spell),
            "prob_to_str_calls": 198, "distinct_names": len(tot["names"]), "rule": RULE, "exhaustive": not res.get("skipped_shards"),
            "samples": tot["samples"][:4]}
     return {"coverage": cov, "violations": tot["violations"], "assumptions": ASSUME}
@@ -221,8 +269,12 @@ def replay(case):
     i = case["input"]
     if i["entry"] == "prob_to_str":
         k = i["params"][0]
-        bad = [v for v in (k / 100, float("0.%02d" % k)) if G.prob_to_str(v) != str(k)]
+        bad = [v for v in spellings(k) if G.prob_to_str(v) != str(k)]
         return "prob_to_str(%r) != %r" % (bad[0], str(k)) if bad else None
+    if i["entry"] == "spelling":
+        with gen.Scratch() as sc:
+            f = run_spelling(sc, *i["params"])
+        return f[3] if f else None
     if i.get("earlier_calls_in_this_process") and "other" not in i:
         with gen.Scratch() as sc:
             f, name = (run_cli if i["entry"] == "cli" else run_manual)(sc, tuple(i["params"]))
